@@ -90,30 +90,34 @@ impl<L: AsyncLink, S: AsyncSleep> Sender<'_, L, S> {
                         dev.enable = filter[dev.idx()];
                     });
 
-                    let datagram = datagram_map
+                    let generator = datagram_map
                         .remove(&k)
-                        .ok_or(AUTDError::UnkownKey(format!("{:?}", k)))?;
-                    datagram_option = DatagramOption {
-                        timeout: datagram_option.timeout.max(datagram.option().timeout),
-                        parallel_threshold: datagram_option
-                            .parallel_threshold
-                            .min(datagram.option().parallel_threshold),
-                    };
-                    let parallel = self.option.parallel.is_parallel(
-                        self.geometry.num_devices(),
-                        datagram.option().parallel_threshold,
-                    );
-                    let mut generator = datagram
-                        .operation_generator(self.geometry, parallel)
-                        .map_err(AUTDDriverError::from)?;
+                        .ok_or(AUTDError::UnkownKey(format!("{:?}", k)))
+                        .and_then(|datagram| {
+                            datagram_option = DatagramOption {
+                                timeout: datagram_option.timeout.max(datagram.option().timeout),
+                                parallel_threshold: datagram_option
+                                    .parallel_threshold
+                                    .min(datagram.option().parallel_threshold),
+                            };
+                            let parallel = self.option.parallel.is_parallel(
+                                self.geometry.num_devices(),
+                                datagram.option().parallel_threshold,
+                            );
+                            Ok(datagram
+                                .operation_generator(self.geometry, parallel)
+                                .map_err(AUTDDriverError::from)?)
+                        });
 
-                    // restore enable flag
+                    // restore enable flag (also when the key is unknown or the generator cannot be built)
                     self.geometry
                         .iter_mut()
                         .zip(enable_store.iter())
                         .for_each(|(dev, &enable)| {
                             dev.enable = enable;
                         });
+
+                    let mut generator = generator?;
 
                     operations
                         .iter_mut()
